@@ -40,9 +40,9 @@ from sim.env import SimEnv, UNIT
 
 ID = "C38"
 LEVEL = "exploration"
-QUICK_N = 60000
-THOROUGH_N = 1500000
-CHUNK = 500
+QUICK_N = 150000     # ~0.4 ms CPU per run (+ ~0.4 ms generation, hashing, bookkeeping)
+THOROUGH_N = 1500000  # larger programs (~1 ms each); bounded by the runner's in-memory hash sets
+CHUNK = 2000
 RULE = ("gen(seed): program tree of add_callback/spawn_callback/add_timeout(abs, timedelta)/"
         "call_later/call_at/remove_timeout/add_future/resolve ops (top level issued by the main "
         "coroutine between sleeps, nested ones from inside callbacks, bodies raise / return "
@@ -160,6 +160,10 @@ def _gen_ops(rng, ctx, depth, w, budget, n):
             else:
                 ops.append({"op": "sleep", "d": rng.choice([1, 1, 2, 3, 5, 8, 16, 40])})
             continue
+        if ctx.pending and rng.random() < 0.25:
+            t = ctx.pending.pop(rng.randrange(len(ctx.pending)))
+            ops.append({"op": "res", "t": t, "exc": rng.random() < 0.3})
+            continue
         k = rng.random()
         if k < w["cb"]:
             op = {"op": "cb", "id": ctx.new_id(), "via": "spawn" if rng.random() < 0.25 else "add"}
@@ -192,9 +196,13 @@ def _gen_ops(rng, ctx, depth, w, budget, n):
             kind = rng.choice(FUT_KINDS)
             op = {"op": "fut", "id": ctx.new_id(), "kind": kind}
             op["body"] = _gen_body(rng, ctx, depth, w, budget)
-            if kind in ("pending", "cpending"):
-                ctx.pending.append(op["id"])
             ops.append(op)
+            if kind in ("pending", "cpending"):
+                if rng.random() < 0.4:
+                    # resolved right away: completion and add_future in the same iteration
+                    ops.append({"op": "res", "t": op["id"], "exc": rng.random() < 0.3})
+                else:
+                    ctx.pending.append(op["id"])
         else:
             if ctx.pending:
                 t = ctx.pending.pop(rng.randrange(len(ctx.pending)))
@@ -225,13 +233,13 @@ def gen(rng, tier, index):
     tot = w["cb"] + w["to"] + w["rm"] + w["fut"] + 0.08
     for k in ("cb", "to", "rm", "fut"):
         w[k] /= tot
-    nmax = 40 if thorough else 16
+    nmax = 90 if thorough else 16
     budget = [rng.randint(2, nmax)]
     has_prog = rng.random() < 0.85
     ops = _gen_ops(rng, ctx, 0, w, budget, rng.randint(1, nmax)) if has_prog else []
     sync = []
     if not has_prog or rng.random() < 0.45:
-        for _ in range(rng.randint(1, 3)):
+        for _ in range(rng.randint(1, 6 if thorough else 3)):
             kind = rng.choice(SYNC_KINDS)
             spec = {"kind": kind, "id": ctx.new_id()}
             if kind in ("coro", "coro_raise", "task"):
@@ -323,6 +331,18 @@ def validate(scn):
         return len(ids) == len(set(ids)) and isinstance(scn.get("skew", 0), int)
     except (ValueError, TypeError, AttributeError):
         return False
+
+
+def simplify(scn):
+    """Extra shrink candidates: drop empty tapes so equal cases get equal replay files."""
+    if scn.get("mode", "single") != "single":
+        return
+    t = scn.get("tapes") or {}
+    t2 = {k: v for k, v in t.items() if (v.get("v") if isinstance(v, dict) else v)}
+    if t2 != t:
+        c = dict(scn)
+        c["tapes"] = t2
+        yield c
 
 
 # ---------------------------------------------------------------------------
@@ -475,7 +495,10 @@ def _run_single(scn, full_log=False):
         probes[name] = probes.get(name, 0) + n
 
     outcome = []
-    with SimEnv(scn.get("tapes"), max_iters=20_000, full_log=full_log) as env:
+    # max_time: bounded liveness.  No generated deadline is further than ~1 day away; a run whose
+    # virtual clock passes 2**30 s (34 years) has lost a timeout.  (Also keeps the virtual clock
+    # below 2**33 s where SimLoop's 2**-20 clock resolution drops under one ulp.)
+    with SimEnv(scn.get("tapes"), max_iters=20_000, max_time=2.0 ** 30, full_log=full_log) as env:
         loop = env.loop
         loop.skew = scn.get("skew", 0) * UNIT
         rec = Recorder(env)
@@ -672,8 +695,25 @@ def _run_single(scn, full_log=False):
 
         # ---- run_sync phase (loop not running here, see module docstring) ----
         sync_specs = scn.get("sync", ()) if io is not None and status == "done" else ()
-        at_timeout = False
+        at_timeout = False   # a stop() callback of an earlier run_sync is still queued (see below)
         stopped_early = False
+        stops = [0]
+        if sync_specs:
+            real_stop = io.stop
+
+            def counting_stop():
+                stops[0] += 1
+                return real_stop()
+            io.stop = counting_stop
+
+        def sbad(rule, msg, key=None):
+            # once a stale stop() is known to be queued every later run_sync of this run can be
+            # cut short by it: one rule name for the whole family (findings/C38-run_sync-stale-stop)
+            if at_timeout:
+                bad("run_sync.stale_stop", msg + f" [a stop() left over from an earlier run_sync was "
+                                                 f"pending; clause {rule}]")
+            else:
+                bad(rule, msg, key)
         for spec in sync_specs:
             kind = spec.get("kind", "none")
             sid = spec["id"]
@@ -748,6 +788,7 @@ def _run_single(scn, full_log=False):
                 probe("scheduled_while_loop_stopped")
                 exec_ops(spec["pre"], None)
             start = loop.wall()
+            stops[0] = 0
             it0 = loop.iterations
             env.log.ev("run_sync", sid, kind, timeout)
             try:
@@ -764,24 +805,26 @@ def _run_single(scn, full_log=False):
             env.log.ev("run_sync_done", sid, got[0], got[1] if got[0] != "ret" or got[1] is None
                        or isinstance(got[1], int) else "?", end)
             outcome.append((sid, kind, got[0]))
-            if loop.step_capped:
-                bad("loop.step_cap", f"run_sync {sid} hit the step cap")
+            if loop.step_capped or loop.time_capped:
+                bad("loop.step_cap" if loop.step_capped else "loop.time_cap",
+                    f"run_sync {sid} ({kind}) hit the {'step' if loop.step_capped else 'virtual time'} "
+                    f"cap: result {got!r}")
                 break
             if got[0] == "timeout":
                 probe("run_sync_timeout")
                 if timeout is None:
-                    bad("run_sync.spurious_timeout", f"run_sync {sid} ({kind}) raised TimeoutError "
+                    sbad("run_sync.spurious_timeout", f"run_sync {sid} ({kind}) raised TimeoutError "
                                                      f"without a timeout")
                 else:
                     if end < start + timeout * UNIT:
-                        bad("run_sync.timeout_early",
+                        sbad("run_sync.timeout_early",
                             f"run_sync {sid} raised TimeoutError {start + timeout * UNIT - end!r}s "
                             f"before the timeout expired")
                     if F < timeout:
                         probe("run_sync_timeout_by_lateness")
                     if kind in ("coro", "coro_raise", "task"):
                         if st["started"] and st["cancel_seen"] is None:
-                            bad("run_sync.timeout_without_cancel",
+                            sbad("run_sync.timeout_without_cancel",
                                 f"run_sync {sid} ({kind}) raised TimeoutError but the coroutine "
                                 f"did not observe CancelledError "
                                 f"(finished={st['finished'] is not None})",
@@ -792,16 +835,16 @@ def _run_single(scn, full_log=False):
                             probe("run_sync_cancel_observed")
                     elif kind == "future":
                         if st["fut"] is not None and not st["fut"].cancelled():
-                            bad("run_sync.timeout_without_cancel",
+                            sbad("run_sync.timeout_without_cancel",
                                 f"run_sync {sid} (future) raised TimeoutError but the future was "
                                 f"not cancelled", "run_sync.timeout_without_cancel/future")
                     else:
-                        bad("run_sync.spurious_timeout", f"run_sync {sid} ({kind}) raised "
+                        sbad("run_sync.spurious_timeout", f"run_sync {sid} ({kind}) raised "
                             f"TimeoutError though the function completed synchronously")
             elif got == expect:
                 probe("run_sync_" + ("raised" if got[0] == "exc" else "returned"))
                 if timeout is not None and F > timeout:
-                    bad("run_sync.missed_timeout",
+                    sbad("run_sync.missed_timeout",
                         f"run_sync {sid} ({kind}) needs {F} units, timeout {timeout} units, but it "
                         f"completed with {got[0]} after {(end - start) / UNIT} units")
                 if timeout is not None:
@@ -809,28 +852,34 @@ def _run_single(scn, full_log=False):
             elif got == ("exc", "RuntimeError"):
                 # "Event loop stopped before Future completed."
                 stopped_early = True
-                bad("run_sync.loop_stopped_early",
-                    f"run_sync {sid} ({kind}) raised RuntimeError instead of {expect!r}: the loop "
-                    f"was stopped before the function's future completed "
-                    f"(an earlier run_sync completed with its timeout already due: {at_timeout})",
-                    "run_sync.loop_stopped_early/" +
-                    ("after_completion_at_timeout" if at_timeout else "other"))
+                # own rule name for the case findings/C38-run_sync-stale-stop so that the shrinker
+                # cannot drift between it and any other cause of an early stop
+                sbad("run_sync.loop_stopped_early",
+                     f"run_sync {sid} ({kind}) raised RuntimeError instead of {expect!r}: the loop "
+                     f"was stopped before the function's future completed")
             else:
-                bad("run_sync.wrong_result", f"run_sync {sid} ({kind}) gave {got!r}, expected "
+                sbad("run_sync.wrong_result", f"run_sync {sid} ({kind}) gave {got!r}, expected "
                                              f"{expect!r}", "run_sync.wrong_result/" + kind)
             if got[0] != "timeout" and timeout is not None and end >= start + timeout * UNIT:
-                at_timeout = True
                 probe("run_sync_completed_with_timeout_due")
+                # The clock only moves at the start of an iteration, before due timers are
+                # collected: the timeout callback ran in the last iteration.  If stop() was called
+                # once, it was called by the timeout callback and the add_future callback that also
+                # calls stop() is still queued: it will stop whatever runs the loop next.
+                if stops[0] == 1 and not at_timeout:
+                    probe("run_sync_left_stale_stop")
+                    at_timeout = True
             if loop.iterations == it0:
-                bad("run_sync.did_not_run", f"run_sync {sid} did not run the loop")
+                sbad("run_sync.did_not_run", f"run_sync {sid} did not run the loop")
         if sync_specs:
             # drain: whatever the run_sync functions left behind runs now.  A stop() left in the
             # queue (see finding C38-run_sync-stale-stop) ends run_forever early: re-enter.
             for _ in range(8):
                 if loop.run_until_quiescent():
                     break
-                if loop.step_capped:
-                    bad("loop.step_cap", "final drain hit the step cap")
+                if loop.step_capped or loop.time_capped:
+                    bad("loop.step_cap" if loop.step_capped else "loop.time_cap",
+                        "final drain hit the step / virtual time cap")
                     break
                 probe("drain_reentered_after_stale_stop")
 
@@ -866,7 +915,7 @@ def _run_single(scn, full_log=False):
                 bad("error.unexpected_log", f"tornado.application ERROR with {name} x{got_c[name]}, "
                                             f"expected x{want.get(name, 0)}")
         for m, e in env.loop_errors:
-            if stopped_early and m and "never retrieved" in m:
+            if (stopped_early or at_timeout) and m and "never retrieved" in m:
                 continue  # consequence of the early stop: nobody was left to await the task
             bad("error.escaped_to_asyncio", f"asyncio exception handler called: {m} ({e})")
         if want:
